@@ -573,21 +573,54 @@ pub fn index_box() -> Vec<IndexCase> {
     out
 }
 
-crate::declare_parts!(Slices, Subscripts);
+
+/// The rows of the box in which a bound lies at or beyond the i64 boundaries, run once more in
+/// isolated worker processes: a slice that *aborts* the process (an allocation sized by a bound)
+/// cannot be observed from inside, and "nothing else about a slice can fail" includes that.
+pub struct SliceBoundaries;
+
+impl Part for SliceBoundaries {
+    type Case = SliceCase;
+    const NAME: &'static str = "slices_at_integer_boundaries";
+
+    fn strategy(tier: Tier) -> BoxedStrategy<SliceCase> {
+        Slices::strategy(tier)
+    }
+
+    fn enumeration(_tier: Tier) -> Vec<SliceCase> {
+        let extreme = |b: Option<i64>| b.map_or(false, |x| x.unsigned_abs() > 1 << 62);
+        slice_box(1, 0)
+            .into_iter()
+            .filter(|c| c.beyond != [0; 3] || extreme(c.start) || extreme(c.stop) || extreme(c.step))
+            .collect()
+    }
+
+    fn check(c: &SliceCase) -> Verdict {
+        Slices::check_impl(c)
+    }
+}
+
+crate::declare_parts!(Slices, Subscripts, SliceBoundaries);
 
 pub fn run(ctx: &mut Ctx) {
-    ctx.rule = "complete enumeration of kind in {ascii/multibyte/arc string, list, tuple, bytes, sized and unsized lazy iterable} x len 0..=6 x start, stop in {omitted} U [-9,9] x step in {omitted} U [-4,4] (both tiers enumerate the whole box), plus rows with i64::MIN/MIN+1/MAX-1/MAX in each position, plus random cases incl. +-2^32, +-2^62; bounds as literals and as variables; judged against Python's slice.indices model. Non-trivial: negative step, negative or out-of-range bound, or length 0. Distinct by (kind, len, start, stop, step, literal/variable).".into();
+    ctx.rule = "complete enumeration of kind in {ascii/multibyte/arc string, list, tuple, bytes, sized and unsized lazy iterable} x len 0..=6 x start, stop in {omitted} U [-9,9] x step in {omitted} U [-4,4] (both tiers enumerate the whole box), plus rows with i64::MIN/MIN+1/MAX-1/MAX in each position, plus random cases incl. +-2^32, +-2^62; bounds as literals and as variables; judged against Python's slice.indices model; every result is sliced, subscripted from the end and measured again; the rows with a bound at or beyond the i64 boundaries also run in isolated worker processes (so that an abort is attributed to its case). Non-trivial: negative step, negative or out-of-range bound, or length 0. Distinct by (kind, len, start, stop, step, literal/variable).".into();
     ctx.assumptions = vec![
         "model/pyslice.rs implements Python's slice.indices (unit-tested against CPython examples; cross-checked against python3 in the thorough tier)".into(),
         "an out-of-range subscript is expected to yield undefined (Jinja) where Python raises IndexError".into(),
         "lazy iterables are judged as the list of their items".into(),
     ];
-    preamble(ctx);
     let t = ctx.tier;
     let (stride, offset) = match t {
         Tier::Quick => (1, 0),
         Tier::Thorough => (1, 0),
     };
+    // the boundary rows first, in worker processes (an abort there is attributed to its case);
+    // if one of them kills its worker the in-process parts below could die of the same cause
+    ctx.run_enum_isolated::<SliceBoundaries>("MJV_DEV", "isolated", 60);
+    if !ctx.violations.is_empty() {
+        return;
+    }
+    preamble(ctx);
     ctx.run_enumerated::<Slices>(slice_box(stride, offset), true);
     ctx.run_enumerated::<Subscripts>(index_box(), true);
     ctx.run_part::<Slices>(t.pick(20_000, 20_000_000));
